@@ -192,6 +192,86 @@ def compare(ctx: Ctx, mode: dict, src: oracle.SolveResult, res: oracle.SolveResu
     return oracle.diff_models(ps, pr, bijection=mode.get("kind") == "bij")
 
 
+class _AlphaLocals(Transformer):
+    """renames the variables that are local to a conditional literal / aggregate element, a different name per scope"""
+
+    def __init__(self, glob: set) -> None:
+        self.glob = glob
+        self.k = 0
+        self.suffix: Optional[str] = None
+
+    def _scope(self, node: AST) -> AST:
+        if self.suffix is not None:
+            return node.update(**self.visit_children(node))
+        self.k += 1
+        self.suffix = f"_ALPHA{self.k}"
+        try:
+            return node.update(**self.visit_children(node))
+        finally:
+            self.suffix = None
+
+    visit_ConditionalLiteral = _scope
+    visit_BodyAggregateElement = _scope
+    visit_HeadAggregateElement = _scope
+
+    def visit_Variable(self, var: AST) -> AST:
+        if self.suffix and var.name != "_" and var.name not in self.glob:
+            return var.update(name=var.name + self.suffix)
+        return var
+
+
+def _global_variables(stm: AST) -> set:
+    """variables with an occurrence outside of every conditional literal and aggregate element"""
+    out: set = set()
+
+    def rec(node: Any) -> None:
+        if isinstance(node, AST):
+            if node.ast_type in (ASTType.ConditionalLiteral, ASTType.BodyAggregateElement, ASTType.HeadAggregateElement):
+                return
+            if node.ast_type == ASTType.Variable:
+                out.add(node.name)
+                return
+            for key in node.child_keys:
+                rec(getattr(node, key))
+        elif isinstance(node, (list, tuple)) or hasattr(node, "__iter__") and not isinstance(node, str):
+            for x in node:
+                rec(x)
+
+    rec(stm)
+    return out
+
+
+def alpha_locals(stmts: list[AST]) -> str:
+    """the same program with every local variable renamed apart (one fresh name per scope); the meaning is unchanged"""
+    out = []
+    for stm in stmts:
+        if stm.ast_type in (ASTType.Rule, ASTType.Minimize):
+            stm = _AlphaLocals(_global_variables(stm))(stm)
+        out.append(str(stm))
+    return "\n".join(out)
+
+
+def oracle_alpha_unstable(ctx: Ctx, idx: int) -> bool:
+    """oracle sanity check, run when a difference is found: clingo must give the source the same answer sets after its
+    local variables are renamed apart.  (clingo 5.8 does not when a head element condition and a body aggregate use the
+    same local variable name: '{ h(A,X) : d(X,D) } :- q(A,B), #count { X : u(X,B) } >= 1, s(A,D).' loses h.)  An
+    instance on which the oracle contradicts itself decides nothing and is discarded."""
+    key = ("alpha", idx)
+    if key not in ctx._src_solutions:
+        src = ctx.solve_source(idx)
+        try:
+            ren = oracle.solve(alpha_locals(ctx.source), ctx.instances()[idx], ctx.consts)
+        except Exception:  # pylint: disable=broad-exception-caught
+            ctx._src_solutions[key] = False
+            return False
+        unstable = False
+        if ren.status == "ok" and src.status == "ok":
+            full = {"voc": "source", "kind": "set", "cost": True}
+            unstable = compare(ctx, full, src, ren) is not None
+        ctx._src_solutions[key] = unstable
+    return bool(ctx._src_solutions[key])
+
+
 def check_equiv(ctx: Ctx, mode: dict, program_text: Optional[str] = None, label: str = "result") -> list[dict]:
     """compare source and (result or given stage text) on every usable instance"""
     text = ctx.result_text if program_text is None else program_text
@@ -222,6 +302,9 @@ def check_equiv(ctx: Ctx, mode: dict, program_text: Optional[str] = None, label:
             continue
         diff = compare(ctx, mode, src, res)
         if diff:
+            if oracle_alpha_unstable(ctx, idx):
+                ctx.counters["discard:oracle-contradicts-itself-after-renaming-locals"] += 1
+                continue
             out.append({"kind": "not-equivalent", "instance": inst, "diff": diff, "label": label, "mode": mode, "result_undefined": bool(res.undefined)})
     return out
 
@@ -279,6 +362,9 @@ def check_stepwise(ctx: Ctx, mode: dict) -> list[dict]:
                 break
             if prev_res.ok:
                 d = compare(ctx, mode, prev_res, res)
+                if d and oracle_alpha_unstable(ctx, idx):
+                    ctx.counters["discard:oracle-contradicts-itself-after-renaming-locals"] += 1
+                    break
                 if d:
                     cb, ca = Counter(prev_stage["stmts"]), Counter(stage["stmts"])
                     out.append(
